@@ -9,6 +9,7 @@ import (
 func init() {
 	extractors["C06"] = extractC06
 	extractorDeps["C06"] = []string{"C05"} // C06 proves over the models of C05: regenerate their constants too
+	extractorDeps["C05"] = []string{"C06"} // the sync-op skeletons of the timer functions (expireNear, trigger, tick, ...) also tie C05
 }
 
 // syncSkeleton lists, in source order, the operations of a function that matter for atomicity:
